@@ -76,6 +76,14 @@ template <int S> static void part_a(Ctx &c, long &id) {  // all permutations of 
     do { typename Setup<S>::WS w; Eigen::VectorXd g; PermExec pe{&perm}; const double cp = s.opt->evaluate(x, g, s.tc, s.wc, s.rc, &w, pe); ++c.st.comparisons; ++nperm;
       if (!bits_equal(cp, c0) || g.size() != g0.size() || !bits_equal(g.data(), g0.data(), g.size())) { c.st.violate(unit, fmt("%s N=%d K=%d: executor order %s gives a cost/gradient that is not bit-identical to serial execution", order_name(S), N, K, sched_str(perm).c_str()), {{"what", "executor-order"}}); break; }
     } while (std::next_permutation(perm.begin(), perm.end()));
+    // the same with a cost that is infeasible (+inf, finite gradients) on ONE segment, for every choice of that segment: the cost is +inf under
+    // every order and the gradient -- the contributions of ALL segments -- is the serial one, bit for bit (seeded change C12-m8: an early-out
+    // flag shared by the per-segment work makes the finite entries depend on which segments ran before the infeasible one)
+    for (int bad = 0; bad < N && N >= 2 && N <= 5; ++bad) { auto rcb = s.rc; rcb.inf_seg = bad; typename Setup<S>::WS wb0; Eigen::VectorXd gb0; const double cb0 = s.opt->evaluate(x, gb0, s.tc, s.wc, rcb, &wb0, SerialExecutor());
+      for (int i = 0; i < N; ++i) perm[i] = i;
+      do { typename Setup<S>::WS w; Eigen::VectorXd g; PermExec pe{&perm}; const double cp = s.opt->evaluate(x, g, s.tc, s.wc, rcb, &w, pe); ++c.st.comparisons; ++nperm;
+        if (!bits_equal(cp, cb0) || g.size() != gb0.size() || !bits_equal(g.data(), gb0.data(), g.size())) { c.st.violate(unit, fmt("%s N=%d K=%d: running cost +inf on segment %d: executor order %s gives a cost/gradient that is not bit-identical to serial execution", order_name(S), N, K, bad, sched_str(perm).c_str()), {{"what", "executor-order(infeasible segment)"}}); bad = N; break; }
+      } while (std::next_permutation(perm.begin(), perm.end())); }
     // a user-written executor that visits the segments in ascending order (another TYPE than SerialExecutor) at 16 further decision vectors:
     // a reduction that is re-associated for non-library executors differs only for some inputs
     { std::vector<int> asc(N); for (int i = 0; i < N; ++i) asc[i] = i; PermExec pe{&asc};
